@@ -197,7 +197,7 @@ func c13Run(c *core.Ctx, long bool) {
 	run := &MRun{Model: model, N: 1, T: T, Sets: []PSet{ps}, Inputs: [][][]float64{in}, States: [][]float64{{v0, interpTable(v0, vols, levels), interpTable(v0, vols, areas)}}}
 	c.Begin(map[string]interface{}{"model": model, "scenario": scn, "run": run})
 	storage.VerifSubsteps()
-	out, err := Execute(run)
+	out, err := ExecuteFor(c, run)
 	if err != nil {
 		c.Violate("prepare", model, err.Error())
 		return
